@@ -63,6 +63,7 @@
 
 #include <dispenso/detail/math.h>
 #include <dispenso/platform.h>
+#include <dispenso/detail/verif_hooks.h>
 #include <dispenso/tsan_annotations.h>
 
 // Whether to use a non-atomic buffer pointer cache for read-hot paths.
@@ -640,6 +641,7 @@ class ConcurrentVector {
    **/
   template <typename... Args>
   iterator emplace_back(Args&&... args) {
+    DISPENSO_VERIF_POINT("cvec.emplace_back.size.fetch_add", &size_);
     auto index = size_.fetch_add(1, std::memory_order_relaxed);
     auto binfo = bucketAndSubIndex(index);
 
@@ -730,6 +732,7 @@ class ConcurrentVector {
    * @return The iterator to the nth element.
    **/
   iterator grow_to_at_least(size_type n) {
+    DISPENSO_VERIF_POINT("cvec.grow_to_at_least.size.load", &size_);
     size_t curSize = size_.load(std::memory_order_relaxed);
     if (curSize < n) {
       return grow_by(n - curSize);
@@ -745,6 +748,7 @@ class ConcurrentVector {
    * @return The iterator to the nth element.
    **/
   iterator grow_to_at_least(size_type n, const T& t) {
+    DISPENSO_VERIF_POINT("cvec.grow_to_at_least.size.load", &size_);
     size_t curSize = size_.load(std::memory_order_relaxed);
     if (curSize < n) {
       return grow_by(n - curSize, t);
@@ -1079,6 +1083,7 @@ class ConcurrentVector {
   }
 
   iterator growByUninitialized(size_type delta) {
+    DISPENSO_VERIF_POINT("cvec.growBy.size.fetch_add", &size_);
     auto index = size_.fetch_add(delta, std::memory_order_relaxed);
     auto binfo = bucketAndSubIndex(index);
     auto bend = bucketAndSubIndex(index + delta);
